@@ -19,7 +19,7 @@
 (*  and every error status is one the sequential meaning gives in some     *)
 (*  serial prefix (never a 5xx).                                           *)
 (***************************************************************************)
-EXTENDS Props, Json, IOUtils
+EXTENDS Serial, Json, IOUtils
 
 VARIABLES i
 
@@ -30,18 +30,6 @@ NormState(j) ==
    traits |-> [p \in DOMAIN j.traits |-> DOMAIN j.traits[p]],
    aggs |-> [p \in DOMAIN j.aggs |-> DOMAIN j.aggs[p]],
    classes |-> j.classes, ctraits |-> DOMAIN j.ctraits]
-
-\* all orders of a set of indices
-Orders(S) == {q \in [1..Cardinality(S) -> S] : \A a, b \in 1..Cardinality(S) : q[a] = q[b] => a = b}
-
-RECURSIVE FoldApply(_, _, _, _)
-\* apply reqs[ord[k]], ... from state st; result: [ok, s] where ok means each
-\* request got the status it was observed with
-FoldApply(st, reqs, resps, ord) ==
-  IF ord = <<>> THEN [ok |-> TRUE, s |-> st]
-  ELSE LET a == Apply(st, reqs[Head(ord)]) IN
-       IF a.resp.status # resps[Head(ord)].status THEN [ok |-> FALSE, s |-> st]
-       ELSE FoldApply(a.s, reqs, resps, Tail(ord))
 
 Succeeded(ln) == {k \in DOMAIN ln.reqs : ln.resps[k].status < 300}
 
